@@ -272,3 +272,32 @@ def run(ctx, R):
     calls = [r for _, r, _ in hir_calls(ph["body"])]
     ok = cmpf in calls and any((n.get("ctor") or "").endswith("Some") for n in walk(ph["body"])) and not list(matches_in(ph["body"], src=None))
     R.ob("C04:Number::partial_cmp:is-Some-cmp", ok, "callees %s" % sorted(set(short(c) for c in calls)), F.where(pcf))
+    mixed_arms_convert_once_with_the_library_conversion(F, R)
+
+
+def mixed_arms_convert_once_with_the_library_conversion(F, R):
+    """A number of arbitrary precision (integer or rational) is compared with a float "after converting it to a double": one
+    correctly rounded conversion, the one float/1 uses (dashu's to_f64). An arm of Ord for Number that builds the double
+    itself (numerator.to_f64() / denominator.to_f64(), or through an in-crate helper) rounds twice and yields NaN or inf
+    when the parts overflow, so R =:= F no longer agrees with float(R) =:= F."""
+    import re
+    cm = F.find_impl("Number", "std::cmp::Ord", "cmp")
+    body = F.hir(cm)["body"]
+    n = 0
+    for m in walk(body):
+        if m["k"] != "Match":
+            continue
+        for arm in m["arms"]:
+            vs = [y["res"]["def"].rsplit("::", 1)[-1] for y in walk(arm["pat"]) if y.get("k") == "PTupleStruct" and re.search(r"::Number::(Fixnum|Integer|Rational|Float)$", (y.get("res") or {}).get("def") or "")]
+            if len(vs) != 2 or "Float" not in vs or not (set(vs) & {"Integer", "Rational"}):
+                continue
+            n += 1
+            convs = [x for x in walk(arm["body"]) if x["k"] == "MethodCall" and x["name"] == "to_f64"]
+            lib = [x for x in convs if re.search(r"dashu|ConvertibleTo|Approximation|EstimatedLog2|to_f64", x.get("resolved") or x.get("callee") or "") and "scryer" not in (x.get("resolved") or "")]
+            local_calls = [(x.get("resolved") or x.get("callee")) for x in walk(arm["body"]) if x["k"] == "Call" and (x.get("resolved") or x.get("callee") or "") in F.items]
+            fdiv = [x["ln"] for x in walk(arm["body"]) if x["k"] == "Binary" and x["op"] in ("Div", "Mul") and x.get("ty") == "f64"]
+            R.ob("C04:number-cmp:%s-%s:one-library-conversion-to-double" % tuple(vs), len(convs) == 1 and len(lib) == 1 and not local_calls and not fdiv,
+                 "Ord for Number, arm (%s, %s): the exact number is not converted by exactly one library to_f64() in the arm itself (conversions: %d, in-crate helpers: %s, float "
+                 "arithmetic at lines %s): the comparison then disagrees with float/1 of the same number" % (vs[0], vs[1], len(convs), local_calls, fdiv), F.where(cm))
+    R.floor("mixed exact/float arms of Ord for Number", n, 4)
+
